@@ -61,7 +61,7 @@ fn keeps_text(wf: &Workflow, text: &str) -> bool {
     }
 }
 
-fn engine_tree(model_text: &str) -> Value {
+pub fn engine_tree(model_text: &str) -> Value {
     match Workflow::from_json(model_text) {
         Ok(wf) => match verif::dump_tree(&wf) {
             Ok(d) => json!({"ok": true, "nodes": tree::table(&d), "warn": d["error"],
